@@ -142,48 +142,65 @@ int64_t cmb_resourceguard_wait(struct cmb_resourceguard *rgp,
     struct cmb_process *pp = cmb_process_current();
     cmb_assert_release(pp != NULL);
 
+    /* We wait since now, however often we may have to line up again below */
     const double entry_time = cmb_time();
-    const int64_t priority = cmb_process_priority(pp);
     const uint64_t arrival = ((struct cmi_hashheap *)rgp)->item_counter + 1u;
-    const uint64_t key = cmi_hashheap_enqueue((struct cmi_hashheap *)rgp,
-                                              (void *)pp,
-                                              (void *)demand,
-                                              (void *)ctx,
-                                              (void *)arrival,
-                                              (uint64_t)pp,
-                                              entry_time,
-                                              priority);
-    cmb_assert_debug(key == (uint64_t)pp);
-    cmi_process_add_awaitable(pp, CMI_PROCESS_AWAITABLE_RESOURCE, rgp);
-    cmb_logger_info(stdout, "Waits for %s", rgp->guarded_resource->name);
+    int64_t sig;
+    while (true) {
+        const int64_t priority = cmb_process_priority(pp);
+        const uint64_t key = cmi_hashheap_enqueue((struct cmi_hashheap *)rgp,
+                                                  (void *)pp,
+                                                  (void *)demand,
+                                                  (void *)ctx,
+                                                  (void *)arrival,
+                                                  (uint64_t)pp,
+                                                  entry_time,
+                                                  priority);
+        cmb_assert_debug(key == (uint64_t)pp);
+        cmi_process_add_awaitable(pp, CMI_PROCESS_AWAITABLE_RESOURCE, rgp);
+        cmb_logger_info(stdout, "Waits for %s", rgp->guarded_resource->name);
 
-    /* Whoever is first in line now may never have been evaluated: the one
-     * that was first has just been served (perhaps it is us, lining up again
-     * for the rest of what we need), and the demand of the next one need not
-     * be about the same thing. Ring the bell before going to sleep. */
-    if (!rgp->evaluate_all) {
-        (void)cmb_resourceguard_signal(rgp);
-    }
-
-    /* Yield to the dispatcher, collect the return signal value when resumed */
-    const int64_t sig = (int64_t)cmi_coroutine_yield(NULL);
-
-    /* Back here, possibly much later. Return the signal that resumed us. */
-    if (sig != CMB_PROCESS_SUCCESS) {
-        cmi_hashheap_cancel((struct cmi_hashheap *)rgp, key);
-
-        /* We may already have been taken off the queue with a wakeup event on
-         * its way (granted in this same instant). Withdraw it, or it would
-         * resume us out of whatever we do next, and ring the bell again so
-         * the grant passes on to the next in line instead of getting lost. */
-        (void)cmb_event_pattern_cancel(wakeup_event_resource, pp, CMB_ANY_OBJECT);
+        /* Whoever is first in line now may never have been evaluated: the one
+         * that was first has just been served (perhaps it is us, lining up
+         * again for the rest of what we need), and the demand of the next one
+         * need not be about the same thing. Ring the bell before going to
+         * sleep. */
         if (!rgp->evaluate_all) {
             (void)cmb_resourceguard_signal(rgp);
         }
-    }
 
-    cmb_assert_debug(!cmi_hashheap_is_enqueued((struct cmi_hashheap *)rgp, key));
-    cmi_process_remove_awaitable(pp, CMI_PROCESS_AWAITABLE_RESOURCE, rgp);
+        /* Yield to the dispatcher, collect the signal value when resumed */
+        sig = (int64_t)cmi_coroutine_yield(NULL);
+
+        /* Back here, possibly much later. */
+        if (sig != CMB_PROCESS_SUCCESS) {
+            cmi_hashheap_cancel((struct cmi_hashheap *)rgp, key);
+
+            /* We may already have been taken off the queue with a wakeup event
+             * on its way (granted in this same instant). Withdraw it, or it
+             * would resume us out of whatever we do next, and ring the bell
+             * again so the grant passes on to the next in line instead of
+             * getting lost. */
+            (void)cmb_event_pattern_cancel(wakeup_event_resource, pp, CMB_ANY_OBJECT);
+            if (!rgp->evaluate_all) {
+                (void)cmb_resourceguard_signal(rgp);
+            }
+        }
+
+        cmb_assert_debug(!cmi_hashheap_is_enqueued((struct cmi_hashheap *)rgp, key));
+        cmi_process_remove_awaitable(pp, CMI_PROCESS_AWAITABLE_RESOURCE, rgp);
+
+        /* A grant does not reserve anything: between it and our turn to run,
+         * somebody else may have helped himself (or been granted the same).
+         * If what we were woken for is gone again, go back to our old place in
+         * the line, not to the end of it: waiting time counts from when we
+         * started to wait. */
+        if ((sig != CMB_PROCESS_SUCCESS)
+                || rgp->evaluate_all
+                || (*demand)(rgp->guarded_resource, pp, ctx)) {
+            break;
+        }
+    }
 
     return sig;
 }
